@@ -21,6 +21,7 @@ def dispatch (req : Sexp) : Sexp :=
   | some "sig" => handleSig req
   | some "consumer" => handleConsumer req
   | some "extsel" => handleExtSel req
+  | some "extlist" => handleExtList req
   | some "place" => handlePlace req
   | some "cli" => handleCli req
   | some "misc" => handleMisc req
